@@ -30,7 +30,8 @@ Abstracted:
     `timer.C`; a mock timer fires only when the clock is moved (`kick` = `Mock.Add(0)` under the scheduler mutex,
     which the harness performs while settling after every op, so that an armed deadline ≤ now behaves like a real
     timer); the clock is only moved while the scheduler mutex is held;
-  * times are whole seconds (`Int`), as in `Item` (`when`, `next`, `Offset` are int64 seconds).
+  * times are whole seconds (`Int`), as in `Item` (`when`, `next`, `Offset` are int64 seconds), except `s.when` and the
+    timer deadline, which are milliseconds (a fractional offset reaches them through `nt.Add(sch.Offset())`).
 -/
 namespace Kap.C17
 
@@ -96,30 +97,34 @@ structure St where
   now : Int := 0
   queue : List Item := []
   index : List (Nat × Int) := []       -- `nextTime`
-  swhen : Option Int := none           -- `s.when` (none = zero time)
-  timer : Option Int := none           -- armed deadline of `s.timer`
+  swhen : Option Int := none           -- `s.when` in MILLISECONDS (none = zero time)
+  timer : Option Int := none           -- armed deadline of `s.timer`, in MILLISECONDS
   tick : Bool := false                 -- a tick is waiting in `timer.C`
   spinning : Bool := false             -- the main loop is inside its inner `for`
   busy : List (Nat × Item) := []       -- worker ↦ item it is executing
   trace : List Ev := []                -- newest first
-deriving Repr
+deriving Repr, DecidableEq
 
 /-! ### Schedule / Release -/
 
-/-- The timer part of `Schedule` for a new item due at `w` (= next + Offset):
+/-- The timer part of `Schedule` for a new item whose exact due time is `wms` milliseconds
+(`nt.Add(sch.Offset())`, the offset NOT truncated to seconds here):
 `if s.when.IsZero() || s.when.After(nt) { s.when = nt; Stop(); Reset(0) if until <= 0 else Reset(until) }`. -/
-def schedTimer (s : St) (w : Int) : St :=
+def schedTimer (s : St) (wms : Int) : St :=
   let rearm : Bool := match s.swhen with
     | none => true
-    | some sw => decide (sw > w)
-  if rearm then { s with swhen := some w, timer := some (if w - s.now ≤ 0 then s.now else w) } else s
+    | some sw => decide (sw > wms)
+  if rearm then { s with swhen := some wms, timer := some (if wms - s.now * 1000 ≤ 0 then s.now * 1000 else wms) } else s
 
-def schedule (E : Env) (s : St) (id sc : Nat) (off last : Int) : St :=
+/-- `Schedule`. `off` is `Item.Offset = int64(sch.Offset().Seconds())` (whole seconds, truncated toward zero) and
+`frac` the rest of the offset in milliseconds (same sign, |frac| < 1000): the item is keyed and tested with `off`,
+the timer is armed with the exact offset. -/
+def schedule (E : Env) (s : St) (id sc : Nat) (off last frac : Int) : St :=
   match E.nx sc last with
   | none => { s with trace := Ev.schedErr id :: Ev.onErr id :: s.trace }
   | some nt =>
     let it : Item := { whn := nt + off, id := id, sc := sc, next := nt, off := off }
-    let s1 := schedTimer s (nt + off)
+    let s1 := schedTimer s ((nt + off) * 1000 + frac)
     let q : List Item := match aget s1.index id with
       | some w => qdelete s1.queue (key id w)
       | none => s1.queue
@@ -180,7 +185,7 @@ def loopIter (E : Env) (skip : List Nat) (s : St) : St × Bool :=
   | some it =>
     if it.whn > s.now then
       -- `s.timer.Reset(ts.Sub(it.When()))`: now − when, a negative duration; `s.when` is not touched
-      ({ s with timer := some (s.now + (s.now - it.whn)) }, false)
+      ({ s with timer := some (s.now * 1000 + (s.now * 1000 - it.whn * 1000)) }, false)
     else
       let s1 := process E skip s
       match s1.queue.head? with
@@ -189,8 +194,8 @@ def loopIter (E : Env) (skip : List Nat) (s : St) : St × Bool :=
         let untl := it1.whn - s1.now
         if untl > 0 then
           -- resetTimer(until)
-          ({ s1 with swhen := some (s1.now + untl), timer := some (s1.now + untl) }, false)
-        else ({ s1 with swhen := some it1.whn }, true)
+          ({ s1 with swhen := some ((s1.now + untl) * 1000), timer := some ((s1.now + untl) * 1000) }, false)
+        else ({ s1 with swhen := some (it1.whn * 1000) }, true)
 
 /-- The main-loop goroutine runs until it blocks: at the `select` with no tick, or spinning in the inner loop
 without being able to dispatch anything (a pass that dispatched nothing leaves the state unchanged). -/
@@ -210,7 +215,7 @@ tick is still unconsumed (the harness does not move the clock then: the mock wou
 def kick (s : St) : St :=
   if s.tick then s else
   match s.timer with
-  | some d => if d ≤ s.now then { s with tick := true, timer := none } else s
+  | some d => if d ≤ s.now * 1000 then { s with tick := true, timer := none } else s
   | none => s
 
 def fuel : Nat := 64
@@ -238,7 +243,7 @@ def done (E : Env) (s : St) (id : Nat) (res : Res) (cpok : Bool) : St :=
 /-! ### fine-grained actions (the transition system the theorems quantify over) -/
 
 inductive Act where
-  | sched (id sc : Nat) (off last : Int)
+  | sched (id sc : Nat) (off last frac : Int)
   | rel (id : Nat)
   | adv (d : Nat)                       -- the clock moves forward by d seconds
   | fire                                -- the (mock) timer fires
@@ -248,7 +253,7 @@ inductive Act where
 deriving Repr
 
 def act (E : Env) (s : St) : Act → St
-  | .sched id sc off last => schedule E s id sc off last
+  | .sched id sc off last frac => schedule E s id sc off last frac
   | .rel id => release s id
   | .adv d => { s with now := s.now + d, trace := Ev.clock (s.now + d) :: s.trace }
   | .fire => kick s
@@ -264,7 +269,7 @@ def runActs (E : Env) (s : St) (as : List Act) : St := as.foldl (act E) s
 /-! ### harness ops (what the correspondence run executes; each is a composition of actions) -/
 
 inductive Op where
-  | sched (id sc : Nat) (off last : Int)
+  | sched (id sc : Nat) (off last frac : Int)
   | rel (id : Nat)
   | adv (d : Nat)
   | done (id : Nat) (res : Res) (cpok : Bool)
@@ -272,7 +277,7 @@ deriving Repr
 
 /-- `adv` is refused by the harness while a tick is stuck behind a spinning loop. -/
 def step (E : Env) (skip : List Nat) (s : St) : Op → St
-  | .sched id sc off last => settle E skip (schedule E s id sc off last)
+  | .sched id sc off last frac => settle E skip (schedule E s id sc off last frac)
   | .rel id => settle E skip (release s id)
   | .adv d => if s.tick then settle E skip s
               else settle E skip { s with now := s.now + d, trace := Ev.clock (s.now + d) :: s.trace }
